@@ -24,11 +24,11 @@ EXPLANATION = (
     "catch-all that logs and continues; exceptions converted to another class are encryption-only (C08-OVER). (FOLDER) in "
     "the 7z reader the arguments that position the read of each folder depend on the folder being decoded. (DISPATCH) the "
     "archive types the magic-byte detector can return are exactly the ones read_archive handles, and the tar mode derived "
-    "from each is one tarfile understands. (STEP) in the per-member step every normal path reaches the routed extractor; the only early exit is the MAX_ARCHIVE_FILE_SIZE test on the member's bytes. (ENDIAN) every integer conversion of the 7z reader is little-endian, as 7zFormat.txt specifies. (FOLDER, continued) a sub-stream size and a folder slot are taken exactly by entries whose kEmptyStream bit is clear (propositional check over the atoms of the directory flag)."
+    "from each is one tarfile understands. (STEP) in the per-member step every normal path reaches the routed extractor; the only early exit is the MAX_ARCHIVE_FILE_SIZE test on the member's bytes. (KIND) the kEmptyFile vector is read and decides, with the right polarity, whether an entry without a stream is a zero-length file or a directory; extractall creates the zero-length files. (ENDIAN) every integer conversion of the 7z reader is little-endian, as 7zFormat.txt specifies. (FOLDER, continued) a sub-stream size and a folder slot are taken exactly by entries whose kEmptyStream bit is clear (propositional check over the atoms of the directory flag)."
 )
-NOT_DECIDED = ["identity of member content with direct extraction (bytes, decompression correctness of LZMA/LZMA2/deflate)", "7z header parsing arithmetic (pack sizes, substream sizes, file-to-folder map) as values", "zero-length files inside a 7z (kEmptyFile is not evaluated: such a member is listed as a directory and yields no result, unlike the same member in a ZIP or TAR)"]
+NOT_DECIDED = ["identity of member content with direct extraction (bytes, decompression correctness of LZMA/LZMA2/deflate)", "7z header parsing arithmetic (pack sizes, substream sizes, file-to-folder map) as values"]
 TRUSTED = ["zipfile.infolist / tarfile.getmembers return members in archive order", "CFG / lexical path conditions"]
-FLOORS = {"C10-EXACT": 8, "C10-CODEC": 6, "C10-LABEL": 10, "C10-STEP": 2, "C10-ENDIAN": 4, "C10-ORDER": 4, "C10-SIB": 6, "C10-FOLDER": 3, "C10-DISPATCH": 6}
+FLOORS = {"C10-EXACT": 8, "C10-CODEC": 6, "C10-LABEL": 10, "C10-STEP": 2, "C10-ENDIAN": 4, "C10-KIND": 3, "C10-ORDER": 4, "C10-SIB": 6, "C10-FOLDER": 3, "C10-DISPATCH": 6}
 
 READS = {"_extract_from_zip_optimized": ("read", "info"), "_extract_from_tar_optimized": ("extractfile", "member")}  # method that reads one member
 
@@ -393,6 +393,17 @@ def _atoms(e, out):
     return out
 
 
+def _expand(e, defs):
+    """Replace local names by their (single) definition in the loop body, recursively."""
+    import copy
+
+    class T(ast.NodeTransformer):
+        def visit_Name(self, n):
+            return _expand(defs[n.id], {k: v for k, v in defs.items() if k != n.id}) if n.id in defs and isinstance(n.ctx, ast.Load) else n
+
+    return T().visit(copy.deepcopy(e))
+
+
 def _streams_consumed(ctx, rep):
     """7z: an entry consumes a sub-stream size (and a slot of its folder) exactly when it has a stream, i.e. is not in kEmptyStream."""
     import itertools
@@ -454,10 +465,97 @@ def _streams_consumed(ctx, rep):
     isdir = kw.get("is_directory")
     size_guard_names = {n.id for c in cons for i in ast.walk(loop) if isinstance(i, ast.If) and any(x is c for x in ast.walk(i)) for n in ast.walk(i.test) if isinstance(n, ast.Name)}
     maps = [l for l in loops if l is not loop and any(isinstance(a, ast.Attribute) and a.attr == "folder_index" for a in ast.walk(l))]
-    if isdir and isdir in size_guard_names and maps and any(isinstance(a, ast.Attribute) and a.attr == "is_directory" for i in ast.walk(maps[0]) if isinstance(i, ast.If) for a in ast.walk(i.test)):
-        rep.ok({"folder_map": f"skips exactly the entries whose `{isdir}` excluded them from the sizes"})
+    if not maps:
+        raise AnalysisError("C10-FOLDER: the loop that maps files to folders was not found")
+    mp = maps[0]
+    skips = [i for i in mp.body if isinstance(i, ast.If) and i.body and isinstance(i.body[-1], ast.Continue)]
+    mi = mp.target.elts[0].id if isinstance(mp.target, ast.Tuple) and isinstance(mp.target.elts[0], ast.Name) else (mp.target.id if isinstance(mp.target, ast.Name) else None)
+    es_map = f"{ES}[{mi}]"
+    ok_dir = isdir and isdir in size_guard_names and any(isinstance(a, ast.Attribute) and a.attr == "is_directory" for i in skips for a in ast.walk(i.test))
+    covers = False
+    for i in skips:
+        atoms = sorted(_atoms(i.test, set()))
+        if es_map in atoms:
+            others = [a for a in atoms if a != es_map]
+            covers = all(_truth(i.test, dict(zip(others, vals), **{es_map: True})) for vals in itertools.product([False, True], repeat=len(others)))
+    if ok_dir and covers:
+        rep.ok({"folder_map": f"skips directories (`{isdir}`) and every entry with `{es_map}`"})
+    elif not ok_dir:
+        rep.fail(Finding("C10-FOLDER", SZ, bf.qual, "folder map predicate", "the entries that take a slot in a folder are not selected by the same flag (`is_directory`) that decided whether they took a sub-stream size: files are attached to the wrong folder position", line=mp.lineno))
     else:
-        rep.fail(Finding("C10-FOLDER", SZ, bf.qual, "folder map predicate", "the entries that take a slot in a folder are not selected by the same flag (`is_directory`) that decided whether they took a sub-stream size: files are attached to the wrong folder position", line=bf.node.lineno))
+        rep.fail(Finding("C10-FOLDER", SZ, bf.qual, "empty-stream entry takes a folder slot", f"the folder map does not skip every entry with `{es_map}`: a zero-length file (no stream) takes the folder slot of the next member, which then receives the wrong bytes", line=mp.lineno))
+
+
+def rule_kind(ctx: Ctx) -> RuleReport:
+    """7z: among the entries without a stream, kEmptyFile separates zero-length files from directories (7zFormat.txt, FilesInfo)."""
+    import itertools
+
+    rep = RuleReport("C10-KIND", "7z: the kEmptyFile vector is read and decides whether an entry without a stream is a zero-length file or a directory; zero-length files are created by extractall")
+    pf = ctx.p.func(SZ, "SevenZipReader._parse_files_info")
+    bf = ctx.p.func(SZ, "SevenZipReader._build_file_list")
+    ex = ctx.p.func(SZ, "SevenZipReader.extractall")
+    rep.unit(pf.key)
+    rep.unit(bf.key)
+    # (1) the PROP_EMPTY_FILE branch reads a boolean vector
+    br = [i for i in walk_own(pf.node) if isinstance(i, ast.If) and isinstance(i.test, ast.Compare) and norm(i.test.comparators[0]) == "PROP_EMPTY_FILE"]
+    if len(br) != 1:
+        raise AnalysisError("C10-KIND: the PROP_EMPTY_FILE branch of _parse_files_info was not found")
+    reads = [c for st in br[0].body for c in ast.walk(st) if isinstance(c, ast.Call) and (dotted(c.func) or "") == "self._read_boolean_vector"]
+    call = [c for c in calls_in(pf) if (dotted(c.func) or "") == "self._build_file_list"]
+    if not reads:
+        rep.fail(Finding("C10-KIND", SZ, pf.qual, "kEmptyFile skipped", "the kEmptyFile property is skipped: every entry without a stream is taken for a directory, so a zero-length member of a 7z yields no result (the same member of a ZIP or TAR, or the file on its own, yields one)", line=br[0].lineno))
+        return rep
+    rep.ok({"kEmptyFile": "read as a boolean vector"})
+    # (2) the directory flag depends on it with the right polarity
+    params = [a.arg for a in bf.node.args.args]
+    loops = sorted([l for l in walk_own(bf.node) if isinstance(l, ast.For)], key=lambda l: l.lineno)
+    loop = next((l for l in loops if any(isinstance(n, ast.Subscript) and norm(n.value) == "self._file_sizes" for n in ast.walk(l))), None)
+    if loop is None or len(params) < 4 or len(call) != 1 or len(call[0].args) < 3:
+        raise AnalysisError("C10-KIND: _build_file_list / its call no longer have the recognised shape")
+    iv = loop.target.id if isinstance(loop.target, ast.Name) else "i"
+    ctor = [c for c in ast.walk(loop) if isinstance(c, ast.Call) and (dotted(c.func) or "") == "FileInfo"]
+    kw = {k.arg: k.value for c in ctor for k in c.keywords}
+    flag = kw.get("is_directory")
+    defs = {n.targets[0].id: n.value for n in loop.body if isinstance(n, ast.Assign) and len(n.targets) == 1 and isinstance(n.targets[0], ast.Name)}
+    if flag is None:
+        raise AnalysisError("C10-KIND: FileInfo(is_directory=...) not found")
+    flag = _expand(flag, defs)
+    es, ef = f"{params[2]}[{iv}]", f"{params[3]}[{iv}]"
+    # positional correspondence: 2nd / 3rd argument of the call are the vectors read under PROP_EMPTY_STREAM / PROP_EMPTY_FILE
+    tgt = {norm(i.test.comparators[0]): {n.targets[0].id for st in i.body for n in ast.walk(st) if isinstance(n, ast.Assign) and isinstance(n.targets[0], ast.Name)} for i in walk_own(pf.node) if isinstance(i, ast.If) and isinstance(i.test, ast.Compare)}
+    a1, a2 = norm(call[0].args[1]), norm(call[0].args[2])
+    if a1 not in tgt.get("PROP_EMPTY_STREAM", set()) or a2 not in tgt.get("PROP_EMPTY_FILE", set()):
+        rep.fail(Finding("C10-KIND", SZ, pf.qual, f"vectors passed: {a1}, {a2}", "the vectors handed to _build_file_list are not the ones read under kEmptyStream and kEmptyFile, in that order", line=call[0].lineno))
+        return rep
+    atoms = sorted(_atoms(flag, set()))
+    if es not in atoms or ef not in atoms:
+        rep.fail(Finding("C10-KIND", SZ, bf.qual, "directory flag: " + anorm(flag, bf.node), f"the directory flag `{short(flag, 70)}` does not depend on both `{es}` and `{ef}`", line=flag.lineno))
+        return rep
+    others = [a for a in atoms if a not in (es, ef)]
+    bad = None
+    for vals in itertools.product([False, True], repeat=len(others)):
+        env = dict(zip(others, vals))
+        for e1, e2 in ((True, True), (True, False), (False, False)):
+            env[es], env[ef] = e1, e2
+            want_dir_if_no_attr = e1 and not e2
+            got = _truth(flag, env)
+            if not any(vals) and got != want_dir_if_no_attr:
+                bad = (e1, e2, got)
+            if e1 and not e2 and not got:
+                bad = (e1, e2, got)
+    if bad is None:
+        rep.ok({"directory_flag": short(flag, 70), "truth_table": "empty stream and not empty file -> directory; empty stream and empty file -> file"})
+    else:
+        rep.fail(Finding("C10-KIND", SZ, bf.qual, "directory flag: " + anorm(flag, bf.node), f"with {es}={bad[0]}, {ef}={bad[1]} and no directory attribute the entry is {'a directory' if bad[2] else 'a file'}: an entry without a stream is a directory exactly when kEmptyFile does not mark it as a file", line=flag.lineno))
+    # (3) extractall creates the zero-length files: it iterates a list that _build_file_list fills under `not <dir flag>`
+    filled = {norm(c.func.value) for c in ast.walk(loop) if isinstance(c, ast.Call) and isinstance(c.func, ast.Attribute) and c.func.attr == "append" and norm(c.func.value).startswith("self.") and norm(c.func.value) != "self._files"}
+    used = {norm(l.iter) for l in walk_own(ex.node) if isinstance(l, ast.For)}
+    wr = [l for l in walk_own(ex.node) if isinstance(l, ast.For) and norm(l.iter) in filled and any(isinstance(c, ast.Call) and norm(c.func) == "open" for c in ast.walk(l)) and any(isinstance(c, ast.Call) and norm(c.func) == "_safe_join" for c in ast.walk(l))]
+    if wr:
+        rep.ok({"extractall": f"creates every entry of {norm(wr[0].iter)} through _safe_join"})
+    else:
+        rep.fail(Finding("C10-KIND", SZ, ex.qual, "zero-length files not created", "extractall never creates the zero-length files (they belong to no folder): read_archive finds no file to hand to the extractor", line=ex.node.lineno))
+    return rep
 
 
 def rule_folder(ctx: Ctx) -> RuleReport:
@@ -764,4 +862,4 @@ def rule_codec(ctx: Ctx) -> RuleReport:
     return rep
 
 
-RULES = [rule_label, rule_step, rule_endian, rule_order, rule_sib, rule_folder, rule_dispatch, rule_exact, rule_codec]
+RULES = [rule_label, rule_step, rule_endian, rule_kind, rule_order, rule_sib, rule_folder, rule_dispatch, rule_exact, rule_codec]
